@@ -210,6 +210,8 @@ INS_CELLS = [
     # numerically extreme likelihood magnitudes: exp(logL + logW) under- / overflows in float64
     ("ins-logL-minus-2000-Zerr", "G2o", {"stopping_criterion": "Z_err", "tolerance": 1.03, "max_iteration": 15}, None),
     ("ins-logL-minus-2000-default", "G2o", {}, None),
+    ("ins-logL-minus-2000-quantile-with-likelihood", "G2o", {"threshold_method": "quantile", "threshold_kwargs": {"q": 0.7, "include_likelihood": True}}, None),
+    ("ins-logL-plus-900-entropy-with-likelihood", "G2p", {"threshold_kwargs": {"q": 0.5, "include_likelihood": True}}, None),
     ("ins-logL-plus-900-fractional-error", "G2p", {"stopping_criterion": "fractional_error", "tolerance": 0.03, "max_iteration": 15}, None),
     ("ins-logL-plus-900-Zerr-ess-all", "G2p", {"stopping_criterion": ["Z_err", "ess"], "tolerance": [1.03, 800.0], "check_criteria": "all", "max_iteration": 15}, None),
 ]
